@@ -506,6 +506,8 @@ class CallMixin:
                     out += self.apply_contract(con, pos, kw, s, exc, site=src)
                 else:
                     raise Unsupported("call through function value %s" % fv.py)
+            elif fv.ty.kind == "none":
+                self.require_noexc(s, smt.FALSE, "TypeError", "call_of_none", exc)      # 'NoneType' object is not callable
             else:
                 out += self.opaque_call(src, [fv] + pos + list(kw.values()), s, exc)
         return out
